@@ -19,6 +19,8 @@ type SchemaOpts struct {
 	Degenerate bool
 	// NoRef disables definitions/$ref.
 	NoRef bool
+	// BadPatterns lets pattern / patternProperties hold expressions that Go's regexp rejects (without the other degenerate features).
+	BadPatterns bool
 	// Defaults adds "default" values to object properties (C18).
 	Defaults bool
 	// ObjectBias makes object/array structure much more likely (C17-C19).
@@ -114,7 +116,7 @@ func (g *schemaGen) size(label string) any {
 }
 
 func (g *schemaGen) pattern() string {
-	if g.o.Degenerate && g.coin("badpat", 4) {
+	if (g.o.Degenerate || g.o.BadPatterns) && g.coin("badpat", 4) {
 		return rapid.SampledFrom([]string{"(", "[a-", "*a", `\p{Nope}`, "a{2,1}", "(?P<n>", `^(?!x)`}).Draw(g.t, "badpattern")
 	}
 	return rapid.SampledFrom(Patterns).Draw(g.t, "pattern")
